@@ -88,7 +88,7 @@ func TestC18Cleanup(t *testing.T) {
 	}
 	rng := NewRng(r.Seed, "c18")
 	sizes := []int{255, 256, 257, 300, 511, 512, 513, 600, 767, 769}
-	hazards := []string{"partial-without-full", "empty-full", "partial-right-of-edge", "tmp-in-partial", "tmp-next-to-partial", "unrelated-file", "partial-beyond-tree", "emptied-full-left-of-edge", "full-is-directory-left-of-edge"}
+	hazards := []string{"partial-without-full", "empty-full", "partial-right-of-edge", "tmp-in-partial", "tmp-next-to-partial", "unrelated-file", "partial-beyond-tree", "emptied-full-left-of-edge", "full-is-directory-left-of-edge", "missing-full-left-of-edge"}
 	n := pick(24, 300)
 	for i := 0; i < n; i++ {
 		crng := rng.Fork(fmt.Sprint(i))
@@ -114,6 +114,8 @@ func TestC18Cleanup(t *testing.T) {
 			cc.Size, cc.Ahead, cc.Hazards = 600, "", []string{"emptied-full-left-of-edge"}
 		case 4:
 			cc.Size, cc.Ahead, cc.Hazards = 513, "", []string{"full-is-directory-left-of-edge"}
+		case 5:
+			cc.Size, cc.Ahead, cc.Hazards = 700, "", []string{"missing-full-left-of-edge"}
 		}
 		for _, h := range cc.Hazards {
 			if strings.HasSuffix(h, "-left-of-edge") {
@@ -179,7 +181,7 @@ func runC18Case(r *Run, cc *c18Case) {
 			write("notes.txt", []byte("operator notes"))
 		case "partial-beyond-tree":
 			write("tile/1/x001/234.p/1", rng.Bytes(32))
-		case "emptied-full-left-of-edge", "full-is-directory-left-of-edge":
+		case "emptied-full-left-of-edge", "full-is-directory-left-of-edge", "missing-full-left-of-edge":
 			// a log that is already damaged: the entry NNN next to NNN.p/ is an
 			// empty file (name persisted, data lost) or a directory. The partial
 			// may be the only surviving copy; its full tile does not exist.
@@ -191,6 +193,12 @@ func runC18Case(r *Run, cc *c18Case) {
 			exec.Command("chattr", "-i", full).Run()
 			if h == "emptied-full-left-of-edge" {
 				if err := os.Truncate(full, 0); err != nil {
+					panic(err)
+				}
+			} else if h == "missing-full-left-of-edge" {
+				// the full tile is gone altogether; tiles of the same name still
+				// exist in the sibling level directories
+				if err := os.Remove(full); err != nil {
 					panic(err)
 				}
 			} else {
